@@ -301,10 +301,25 @@ bool leak_check(std::string& site, std::string& detail) {
   if (!__lsan_do_recoverable_leak_check()) return false;
   std::string rep = slurp_and_truncate(report_file());
   if (hx::opt().verbose) fprintf(stderr, "%s\n", rep.c_str());
-  size_t d = rep.find("leak of ");
-  std::vector<Frame> fr = first_stack(rep, d == std::string::npos ? 0 : d);
-  std::string ctx;
-  site = top_ppl_frame(fr, &ctx);
+  // One stack per leaked allocation site.  The key names the first *direct* leak whose allocation
+  // was made by library code; blocks allocated inside GMP/gmpxx (no library frame on top) only if there is no other.
+  std::string ctx, ext_site, ext_ctx; site.clear();
+  for (size_t d = rep.find("Direct leak of "); d != std::string::npos; d = rep.find("Direct leak of ", d + 1)) {
+    std::vector<Frame> fr = first_stack(rep, d);
+    std::string c1, st; bool ext = false;
+    for (size_t i = 0; i < fr.size(); ++i) {
+      const Frame& f = fr[i];
+      if (f.loc.find("asan_") != std::string::npos || f.loc.find("faultinj.cc") != std::string::npos) continue;   // interposer frames
+      if (f.ppl) { st = top_ppl_frame(fr, &c1); }
+      else if (f.loc.compare(0, 3, "lib") != 0) continue;            // inlined standard-library code (/usr/include/c++/...)
+      else { ext = true; size_t e = f.loc.find_first_of(".+"); st = "extern-" + (f.loc.compare(0, 3, "lib") == 0 ? f.loc.substr(0, e) : std::string("unknown")); c1 = f.fn + " " + f.loc; std::string c2; std::string up = top_ppl_frame(fr, &c2); if (up != "no-PPL-frame" && up.compare(0, 7, "extern-") != 0) c1 += " < " + c2; }
+      break;
+    }
+    if (st.empty()) continue;
+    if (!ext) { site = st; ctx = c1; break; }
+    if (ext_site.empty()) { ext_site = st; ext_ctx = c1; }
+  }
+  if (site.empty()) { site = ext_site.empty() ? "no-PPL-frame" : ext_site; ctx = ext_ctx; }
   size_t s = rep.find("SUMMARY:");
   detail = (s == std::string::npos ? std::string("(no report text)") : rep.substr(s, rep.find('\n', s) - s)) + " allocated at: " + ctx;
   // hand every block allocated during this invocation and still live to LSan's ignore list:
